@@ -58,7 +58,10 @@ Section LineCalls.
     destruct (RI_at_end _ _ R2) as [Pn [Bn Pe]].
     destruct R2 as [Ok [K [D [W [LO X]]]]].
     unfold ef_tell, f_tell, ef_seek. cbn [ef_stream ef_rd].
-    rewrite !f_seek_end. cbn [rf_pos rf_data]. rewrite Pe, Nat.eqb_refl.
+    rewrite !f_seek_end. cbn [rf_pos rf_data].
+    change (f_seek (f_seek ?x (Z.of_nat ?p) 0) (Z.of_nat ?p) 0) with (f_seek0 (f_seek0 x p) p).
+    rewrite !f_seek0_eq. cbn [rf_pos rf_data]. rewrite Pe.
+    replace (length (rf_data (ef_stream (ss_buf s1))) <=? length (rf_data (ef_stream (ss_buf s1)))) with true by lia.
     eexists. split; [reflexivity|].
     cbn [ss_with ss_buf ss_tell]. split; [|split; [exact R3|destruct R4; split; cbn; assumption]].
     unfold RI, rd_reset, lines_ok, pending, wf, rest. cbn [ef_rd ef_stream rd_ok rd_bytes rd_lines rd_chars rf_data rf_pos].
@@ -197,7 +200,7 @@ Proof.
   - (* seek *)
     destruct I as [Ok [_ [D [W [LO X]]]]].
     assert (I : RI (rf_data f) (rf_pos f) (ss_buf s)) by (repeat split; auto).
-    apply andb_true_iff in Pre as [Pre P4]. apply andb_true_iff in Pre as [Pre P3].
+    apply andb_true_iff in Pre as [Pre P34]. apply andb_true_iff in P34 as [P3 P4].
     apply andb_true_iff in Pre as [P1 P2].
     destruct wh as [|[|[|wh]]]; [| | |cbn in P1; discriminate]; cbn [seek_target Nat.eqb orb] in P2, P3, P4.
     + (* SEEK_SET *)
